@@ -194,6 +194,43 @@ func runC14(c *engine.Ctx) {
 				n.Set("matrix", gen.Map())
 				changed = true
 			}
+			// a plugin's configuration: absent == null == an empty mapping == an empty list
+			if pls := n.Get("plugins"); pls != nil && pls.Kind == gen.KSeq {
+				for i, e := range pls.Seq {
+					emptyCfg := func(v *gen.Node) bool {
+						return v == nil || v.Kind == gen.KNull || (v.Kind == gen.KMap && len(v.Keys) == 0) || (v.Kind == gen.KSeq && len(v.Seq) == 0)
+					}
+					src := ""
+					switch {
+					case e.Kind == gen.KStr:
+						src = e.S
+					case e.Kind == gen.KMap && len(e.Keys) == 1 && emptyCfg(e.Vals[0]):
+						src = e.Keys[0]
+					default:
+						continue
+					}
+					k := p.Draw(5, "c14:plugincfg-empty")
+					if k == 0 {
+						continue
+					}
+					var ne *gen.Node
+					switch k {
+					case 1:
+						ne = gen.Str(src)
+					case 2:
+						ne = gen.Map().Set(src, gen.Null())
+					case 3:
+						ne = gen.Map().Set(src, gen.Map())
+					default:
+						ne = gen.Map().Set(src, &gen.Node{Kind: gen.KSeq, Seq: []*gen.Node{}})
+					}
+					if !gen.Same(ne, e) {
+						pls.Seq[i] = ne
+						changed = true
+						c.Probe("plugin_config_empty_respelled")
+					}
+				}
+			}
 			// inside a mapping-form matrix: no adjustments == an explicit empty list
 			if m := n.Get("matrix"); m != nil && m.Kind == gen.KMap && m.Has("setup") && p.Draw(2, "c14:adj-empty") == 1 {
 				if !m.Has("adjustments") {
@@ -415,6 +452,53 @@ func runC14(c *engine.Ctx) {
 						}
 						judged["differ:empty-dimensions"] = true
 						c.Probe("differ_pairs.empty-dimensions")
+					}
+
+					// ---- constructed pairs: a value and the string that spells it are different contents
+					if c.Sched.Draw(3, "c14:typed?") == 2 {
+						mkp := func(v *gen.Node) []byte {
+							st := j.step.Clone()
+							st.Del("signature")
+							entry := gen.Map().Set("typed-probe#v1.0.0", gen.Map().Set("release_id", v))
+							if pls := st.Get("plugins"); pls != nil && pls.Kind == gen.KSeq {
+								pls.Seq = append(pls.Seq, entry)
+							} else {
+								st.Set("plugins", gen.Seq(entry))
+							}
+							cs := new(pipeline.CommandStep)
+							if cs.UnmarshalJSON(st.ToJSON(nil)) != nil {
+								return nil
+							}
+							pay, err := signOnePayload(c, cs, kp, j.repoURL, penv)
+							if err != nil {
+								return nil
+							}
+							return pay
+						}
+						pairs := []struct {
+							name string
+							a, b *gen.Node
+						}{
+							{"integer above 2^53 vs its digits as a string", gen.Int(9007199254740993), gen.Str("9007199254740993")},
+							{"negative 64-bit integer vs its digits as a string", gen.Int(-9223372036854775807), gen.Str("-9223372036854775807")},
+							{"two integers above 2^53 two apart", gen.Int(9007199254740993), gen.Int(9007199254740995)},
+							{"two integers with the same float64 image", gen.Int(9007199254740993), gen.Int(9007199254740992)},
+							{"small integer vs its digits as a string", gen.Int(42), gen.Str("42")},
+							{"float vs its spelling", gen.Float(1.5), gen.Str("1.5")},
+							{"true vs \"true\"", gen.Bool(true), gen.Str("true")},
+							{"null vs \"null\"", gen.Null(), gen.Str("null")},
+							{"null vs empty string", gen.Null(), gen.Str("")},
+							{"0 vs false", gen.Int(0), gen.Bool(false)},
+						}
+						pr := pairs[c.Sched.Draw(len(pairs), "c14:typed-pair")]
+						pa, pb := mkp(pr.a), mkp(pr.b)
+						if pa != nil && pb != nil {
+							if bytes.Equal(pa, pb) {
+								c.Fail("C14.differ", "look-alike values: "+pr.name, "steps whose plugin configuration holds %s have the SAME payload: %s", pr.name, truncate(string(pa), 600))
+							}
+							judged["differ:typed-lookalike"] = true
+							c.Probe("differ_pairs.typed-lookalike")
+						}
 					}
 
 					// ---- constructed pair: matrix-level extra keys that carry the NAME of a typed field (as
